@@ -595,8 +595,10 @@ impl Cursor<'_> {
             }
         }
         let c = self.first();
-        // The version number may also be the last thing in the input.
-        if c != ';' && !is_whitespace(c) && !self.is_eof() {
+        // The version number may also be the last thing in the input,
+        // or be followed directly by a comment.
+        let comment_follows = c == '/' && matches!(self.second(), '/' | '*');
+        if c != ';' && !is_whitespace(c) && !self.is_eof() && !comment_follows {
             return (false, false);
         }
         (true, true)
